@@ -83,6 +83,9 @@ def stops(r):
     offs = sorted(r.uniform(0, 1) for _ in range(n))
     if r.random() < 0.7:
         offs[0], offs[-1] = 0.0, 1.0
+    if n >= 3 and r.random() < 0.3:
+        offs[1] = offs[2] if n > 3 and r.random() < 0.5 else offs[0]  # a hard edge: two stops at one offset
+        offs.sort()
     return [{"StopOffset": o, "PaletteIndex": r.choice(PALIDX), "Alpha": r.choice([1.0, 0.5, 0.8])} for o in offs]
 
 
